@@ -143,18 +143,40 @@ def run(ctx):
     # the creation/round-robin decision is literally the same test in both methods
     pull = model.own_method("POO", "pull")
     rr = model.own_method("POO", "receive_reward")
-    t1 = strip_doc(pull.body)[0]
-    t2 = strip_doc(rr.body)[0]
-    ok = isinstance(t1, ast.If) and isinstance(t2, ast.If) and norm_src(t1.test) == norm_src(t2.test)
+    # decided on the path conditions (atomic tests, aliases expanded): both methods branch on one and the same test, evaluated
+    # on the state they are entered with, and that test is N <= 0.5*Dmax*ln(n/ln n)
+    pf, pparams, ppaths, _f1 = CR.method_paths(model, "POO", "pull")
+    rf, rparams, rpaths, _f2 = CR.credit_paths(model, "POO")
+    pc = {c0 for p in ppaths for c0, _pol in CR.entry_conds(p)}
+    rc = {c0 for p in rpaths for c0, _pol in CR.entry_conds(p)}
     T = SX.Translator(positive=True)
     T.attr_cb = lambda e: T.sym(e.attr) if is_self_attr(e) else None
-    okf = False
-    if ok and isinstance(t1.test, ast.Compare) and isinstance(t1.test.ops[0], ast.LtE):
-        lhs, rhs = T.tr(t1.test.left), T.tr(t1.test.comparators[0])
-        n, N, D = T.sym("n"), T.sym("N"), T.sym("Dmax")
-        okf = SX.equivalent(lhs, N)[0] is True and SX.equivalent(rhs, sp.Rational(1, 2) * D * sp.log(n / sp.log(n)))[0] is True
-    ctx.ob("R10-FORM", ok and okf, c.file, "POO", "creation vs round-robin: N <= 0.5*Dmax*ln(n/ln n), same test in pull and receive_reward",
-           norm_src(t1.test) if ok else "pull tests '%s', receive_reward tests '%s'" % (norm_src(getattr(t1, "test", t1)), norm_src(getattr(t2, "test", t2))),
+    n, N, D = T.sym("n"), T.sym("N"), T.sym("Dmax")
+    ref = sp.Rational(1, 2) * D * sp.log(n / sp.log(n))
+    hit = None
+    for c0 in sorted(pc & rc):
+        try:
+            e = ast.parse(c0, mode="eval").body
+        except SyntaxError:
+            continue
+        if isinstance(e, ast.Compare) and len(e.ops) == 1 and isinstance(e.ops[0], (ast.LtE, ast.GtE, ast.Lt, ast.Gt)):
+            a, b = e.left, e.comparators[0]
+            if isinstance(e.ops[0], (ast.GtE, ast.Gt)):
+                a, b = b, a
+            strict = isinstance(e.ops[0], (ast.Lt, ast.Gt))
+            try:
+                la, lb = T.tr(a), T.tr(b)
+            except SX.Untranslatable:
+                continue
+            # N <= ref  (or its negation ref < N, which splits the rounds the same way)
+            if not strict and SX.equivalent(la, N)[0] is True and SX.equivalent(lb, ref)[0] is True:
+                hit = c0
+            if strict and SX.equivalent(la, ref)[0] is True and SX.equivalent(lb, N)[0] is True:
+                hit = c0
+    okp = hit is not None and all(any(c0 == hit for c0, _ in CR.entry_conds(p)) for p in ppaths if any(e2[0] == "lpull" for e2 in p.events))
+    okr = hit is not None and all(any(c0 == hit for c0, _ in CR.entry_conds(p)) for p in rpaths if any(e2[0] == "learner" for e2 in p.events))
+    ctx.ob("R10-FORM", okp and okr, c.file, "POO", "creation vs round-robin: N <= 0.5*Dmax*ln(n/ln n), same test in pull and receive_reward",
+           hit if (okp and okr) else "tests shared by pull and receive_reward: %s; none is the published one on every learner path" % sorted(pc & rc),
            pull.lineno)
     ctx.attempt("R10-APPEND", c.file, "POO", "learner lists", check_append_only, ctx)
     ctx.attempt("R10-IDX", c.file, "POO.receive_reward", "indices", check_index, ctx)
